@@ -9,6 +9,7 @@ import Gsp.Model.Mz
 import Gsp.Model.Safe
 import Gsp.Model.Codec
 import Gsp.Model.HasherCfg
+import Gsp.Model.Claim
 /-! Line-protocol driver: one JSON case per line on stdin, one `{"id","out"}` per line on stdout. Core-only. -/
 open Lean Gsp
 
@@ -231,6 +232,74 @@ def opSmtRun (k : Pos.Consts) (inp : Json) : Except String Json := do
       else go rest t (errJ "bad-op" :: acc)
   pure (Json.arr (go ops .empty []).toArray)
 
+
+/-! ### claims -/
+def strTable (j : Json) (k : String) : String → Option Json :=
+  match j.getObjVal? k with
+  | .ok (.obj kvs) => fun s => kvs.get? s
+  | _ => fun _ => none
+
+def credInOf (inp : Json) : Except String Claim.CredIn := do
+  let mzOk ← (← inp.getObjVal? "mzOk").getBool?
+  let st ← (← (← inp.getObjVal? "subjectTypes").getArr?).toList.mapM (·.getStr?)
+  let tt ← (← (← inp.getObjVal? "topTypes").getArr?).toList.mapM (·.getStr?)
+  let schemaT := strTable inp "schemaOf"
+  let attrT := strTable inp "attrOf"
+  let fields ← match inp.getObjVal? "fields" with
+    | .ok (.obj kvs) => kvs.toList.mapM fun (k, v) => do pure (k, ← jnatS v)
+    | _ => pure []
+  let root ← jnatS (← inp.getObjVal? "root")
+  let exp ← match jopt inp "exp" with
+    | none => pure none
+    | some e => do pure (some (← jintS e))
+  let subject : Option (Except String Nat) ← match jopt inp "subject" with
+    | none => pure none
+    | some sj => match jopt sj "ok" with
+      | some v => do pure (some (.ok (← jnatS v)))
+      | none => pure (some (.error "subject-id"))
+  pure { mzOk := mzOk, subjectTypes := st, topTypes := tt,
+         schemaOf := fun t => match schemaT t with | some v => (jnatS v).toOption.getD 0 | none => 0,
+         attrOf := fun t => match attrT t with
+           | some (.str a) => .ok a
+           | some _ => .error "attr"
+           | none => .ok "",
+         fields := fields, root := root, expiration := exp, subject := subject }
+
+def optsOf (inp : Json) : Except String (Option Claim.Opts) :=
+  match jopt inp "opts" with
+  | none => pure none
+  | some o => do
+    pure (some { revNonce := ← jnatS (← o.getObjVal? "nonce"), version := ← jnatS (← o.getObjVal? "ver"),
+                 subjectPos := ← jstr o "subj", rootPos := ← jstr o "root", updatable := ← (← o.getObjVal? "upd").getBool? })
+
+def claimJ (c : Claim.Claim) : Json := Json.arr (c.slots.map natJ).toArray
+
+def claimOf (j : Json) : Except String Claim.Claim := do
+  let xs ← (← j.getArr?).toList.mapM jnatS
+  match xs with
+  | [a, b, c, d, e, f, g, h] => pure ⟨a, b, c, d, e, f, g, h⟩
+  | _ => throw "claim needs 8 slots"
+
+def opClaimBuild (inp : Json) : Except String Json := do
+  let cin ← credInOf inp
+  let o ← optsOf inp
+  pure (exceptJ claimJ (Claim.toCoreClaim o cin))
+
+def opClaimHistory (inp : Json) : Except String Json := do
+  let calls ← (← inp.getObjVal? "calls").getArr?
+  let rs ← calls.toList.mapM opClaimBuild
+  pure (Json.arr rs.toArray)
+
+def opClaimBind (inp : Json) : Except String Json := do
+  let cin ← credInOf inp
+  let cl ← claimOf (← inp.getObjVal? "claim")
+  pure (exceptJ (fun _ => Json.str "bound") (Claim.bindCheck cin cl))
+
+def opSerSlot (inp : Json) : Except String Json := do
+  let attr ← jstr inp "attr"
+  let field ← jstr inp "field"
+  pure (exceptJ (fun (n : Nat) => Json.num n) (Claim.getFieldSlotIndex attr field))
+
 def handle (k : Pos.Consts) (op : String) (inp : Json) : Except String Json :=
   match op with
   | "pre.hash" => opPreHash k inp
@@ -240,6 +309,10 @@ def handle (k : Pos.Consts) (op : String) (inp : Json) : Except String Json :=
   | "mz.doc" => opMzDoc k inp
   | "mz.safe" => opMzSafe k inp
   | "smt.run" => opSmtRun k inp
+  | "claim.build" => opClaimBuild inp
+  | "claim.history" => opClaimHistory inp
+  | "claim.bind" => opClaimBind inp
+  | "ser.slot" => opSerSlot inp
   | _ => throw s!"unknown op {op}"
 
 def step (k : Pos.Consts) (line : String) : String :=
